@@ -70,6 +70,9 @@ func TestVerifHs13Dbg(t *testing.T) {
 			opt.Inject = append(opt.Inject, in)
 		}
 	}
+	if f := os.Getenv("VERIF_DBG_FORGE"); f != "" { // "family:at_ms"
+		fmt.Sscanf(strings.ReplaceAll(f, ":", " "), "%s %d", &opt.Forge, &opt.ForgeAtMs)
+	}
 	v, ok := hs13Variant(parts[0])
 	if !ok {
 		t.Fatalf("unknown variant %q", parts[0])
@@ -479,7 +482,7 @@ func TestVerifHs13Timed(t *testing.T) {
 func TestVerifHs13Cookie(t *testing.T) {
 	rng := newVRand(vSeed() ^ 0x451313)
 	var jobs []hs13Job
-	names := []string{"v13", "v13-hrr", "v13-clientauth", "v13-mtu300", "v13-hrr-mtu300", "v13-mtu120", "v13-direct"}
+	names := []string{"v13", "v13-hrr", "v13-ksm", "v13-clientauth", "v13-mtu300", "v13-hrr-mtu300", "v13-mtu120", "v13-direct", "v13-ksm-clientauth"}
 	opt := hs13Opt{Limit: 200 * time.Second}
 	n := 3
 	if vIsThorough() {
@@ -547,6 +550,25 @@ func TestVerifHs13Cookie(t *testing.T) {
 				jobs = append(jobs, hs13Job{v, nil, hs13Opt{SilenceUntil: 2500 * time.Millisecond, SilenceTo: "client", Inject: in, Limit: 300 * time.Second}})
 				lost := hs13Single(len(hs13FirstFlight(t, v)), "drop") // the datagram after ClientHello1 is the HelloRetryRequest
 				jobs = append(jobs, hs13Job{v, lost, hs13Opt{Inject: in, Limit: 300 * time.Second}})
+			}
+		}
+	}
+	// a second ClientHello that no client of this connection sent (the real client never hears the HelloRetryRequest
+	// for 2.5 s): cookie absent / wrong / cut / extended / right but another hello / right (positive control);
+	// where the HelloRetryRequest asks for the cookie only, where it also asks for another key-share group
+	// (server preference differs from the share the client sent), with client authentication, fragmented hellos
+	forgeOn := []string{"v13-ksm", "v13", "v13-hrr", "v13-ksm-clientauth", "v13-hrr-clientauth-mtu450", "v13-hrr-mtu300", "v13-mtu300"}
+	for vi, name := range forgeOn {
+		v, _ := hs13Variant(name)
+		if vi >= 4 && !vIsThorough() {
+			continue
+		}
+		for _, fam := range []string{"absent", "wrong", "trunc", "long", "altered", "right"} {
+			for _, at := range []int64{0, 700} {
+				jobs = append(jobs, hs13Job{v, nil, hs13Opt{
+					Forge: fam, ForgeAtMs: at, SilenceFrom: len(hs13FirstFlight(t, v)), SilenceUntil: 2500 * time.Millisecond,
+					SilenceTo: "client", Limit: 20 * time.Second,
+				}})
 			}
 		}
 	}
